@@ -467,6 +467,15 @@ static void build(vf::Plan &plan, const vf::Opts &o)
                    Res r = run(n, [&] { return s.substr((ST_ssize_t)start, (size_t)count); });
                    judge(c, SUBSTR, r, want, subj, [&] { return "substr:" + substr_class(n, start, count); },
                          [&] { return strf("substr(%lld, %llu)", (long long)start, (unsigned long long)count); });
+                   // the same call on a temporary and on a moved-from-able object (an rvalue-qualified overload must slice alike)
+                   Res rr1 = run(n, [&] { return ST::string(s).substr((ST_ssize_t)start, (size_t)count); });
+                   judge(c, SUBSTR, rr1, want, subj, [&] { return "substr(on a temporary):" + substr_class(n, start, count); },
+                         [&] { return strf("ST::string(s).substr(%lld, %llu)", (long long)start, (unsigned long long)count); });
+                   if (count == UINT64_MAX) {
+                       Res rr2 = run(n, [&] { ST::string t(s); return std::move(t).substr((ST_ssize_t)start); });
+                       judge(c, SUBSTR, rr2, want, subj, [&] { return "substr(1-arg, on an rvalue):" + substr_class(n, start, count); },
+                             [&] { return strf("std::move(t).substr(%lld)", (long long)start); });
+                   }
                    if (count == UINT64_MAX) {  // the one-argument form
                        Res r1 = run(n, [&] { return s.substr((ST_ssize_t)start); });
                        judge(c, SUBSTR, r1, want, subj, [&] { return "substr(1-arg):" + substr_class(n, start, count); },
@@ -494,6 +503,12 @@ static void build(vf::Plan &plan, const vf::Opts &o)
                    Res rl = run(n, [&] { return s.left((size_t)k); });
                    judge(c, LEFT, rl, refs::left(subj, k), subj, [&] { return strf("left:%s", n_class(n, k, false)); },
                          [&] { return strf("left(%llu)", (unsigned long long)k); });
+                   Res rl2 = run(n, [&] { return ST::string(s).left((size_t)k); });
+                   judge(c, LEFT, rl2, refs::left(subj, k), subj, [&] { return strf("left(on a temporary):%s", n_class(n, k, false)); },
+                         [&] { return strf("ST::string(s).left(%llu)", (unsigned long long)k); });
+                   Res rr3 = run(n, [&] { return ST::string(s).right((size_t)k); });
+                   judge(c, RIGHT, rr3, refs::right(subj, k), subj, [&] { return strf("right(on a temporary):%s", n_class(n, k, true)); },
+                         [&] { return strf("ST::string(s).right(%llu)", (unsigned long long)k); });
                    Res rr = run(n, [&] { return s.right((size_t)k); });
                    judge(c, RIGHT, rr, refs::right(subj, k), subj, [&] { return strf("right:%s", n_class(n, k, true)); },
                          [&] { return strf("right(%llu)", (unsigned long long)k); });
